@@ -222,6 +222,7 @@ def run(ck, F):
 
     # ---------------------------------------------------------------- positions / home / level
     positions_rule(ck, F, S)
+    level_given(ck, F, 'C12')
 
     # ---------------------------------------------------------------- units
     mk = F.need_fn('ipr::impl::Module::make_unit()')
@@ -348,6 +349,42 @@ def positions_rule(ck, F, S, prefix='C12'):
         sid = '::'.join(contracts.fn_qname(g['id']).split('::')[-2:]) + '/' + str(len(g['params']))
         ck.check(R_pos, sid + '/position', not bad, f'{g["id"]}: ' + '; '.join(sorted(set(bad))[:2]) + ', not the size of the sequence just before that '
                  'append: positions collide with, or skip, those of the members already there', loc=g['loc'], fn=g['id'])
+
+
+def level_given(ck, F, prefix):
+    """A factory that is handed a Mapping_level builds parameter lists that report exactly that level; borrowed by C02."""
+    R = ck.rule(f'{prefix}.level-given', 'a factory that takes a nesting level (mappings, lambdas, function declarators, requires-expressions) '
+                'builds a parameter list whose level() is that very argument on every path: zero is a level like any other, not a request '
+                'to infer one from the surroundings', floor=3)
+    import wire as _wire
+    S2 = Sym(F, opaque=contracts.default_opaque(F), max_depth=64)
+    for f in sorted(_wire.all_factories(F), key=lambda f: f['id']):
+        ks = [i for i, p in enumerate(f['params']) if p['t'].replace('const ', '').strip() == 'ipr::Mapping_level']
+        if len(ks) != 1:
+            continue
+        try:
+            outs = [o for o in S2.run(f['id']) if o[1] == 'return']
+        except Unsupported as e:
+            raise AnalysisBroken(f'{f["id"]}: {e}')
+        bad, seen = [], 0
+        for st, _k, v in outs:
+            for oid, o in st.heap.items():
+                if o.cls != 'ipr::impl::Parameter_list':
+                    continue
+                fo = F.final_overrider_by_name(o.cls, 'level')
+                if not fo:
+                    continue
+                seen += 1
+                lv = S2.run(fo[0], this=('obj', oid), args=[], state=st.fork())[0][2]
+                while isinstance(lv, tuple) and lv and lv[0] == 'castto':
+                    lv = lv[2]
+                if lv != ('param', ks[0]):
+                    bad.append(f'level() is `{contracts.render(lv, st, {})[:60]}`' + (f' when {contracts.render_conds(st.conds, st, {})[:80]}' if st.conds else ''))
+        if not seen:
+            continue
+        sid = '::'.join(contracts.fn_qname(f['id']).split('::')[-2:]) + '/' + str(len(f['params']))
+        ck.check(R, sid, not bad, f'{f["id"]}: the parameter list it builds does not report the level P{ks[0]} it was given: ' + '; '.join(sorted(set(bad))[:2]),
+                 loc=f['loc'], fn=f['id'])
 
 
 def check_owner(ck, F, S, R_owner, st, root, cls, ifc, f):
